@@ -261,6 +261,9 @@ impl Uni for RangeFull {
     fn val(&self) -> String { "(VList [])".into() }
 }
 impl Uni for Duration {
+    // decoding builds the value with Duration::new, which carries nanoseconds >= 10^9 into the seconds:
+    // for an arbitrary (mutated) stream the printed value is not the stream's content
+    const ORDERED: bool = false;
     fn ty() -> String { "(TTuple [TUInt 64; TUInt 32])".into() }
     fn gen_(r: &mut Rng, d: u32) -> Self { Duration::new(u64::gen_(r, d), (gen_unsigned(r, 30) % 1_000_000_000) as u32) }
     fn val(&self) -> String { format!("(VList [VN {}; VN {}])", self.as_secs(), self.subsec_nanos()) }
